@@ -69,15 +69,60 @@ fn drain<T: Copy>(r: &ReadStream<T>, j: usize, got: &mut Vec<T>) -> usize {
     n
 }
 /// call work(), map panics and errors
+static WAIT_SEEN: std::sync::Mutex<std::collections::BTreeMap<String, u32>> = std::sync::Mutex::new(std::collections::BTreeMap::new());
+
 fn work(target: &'static str, seed: u64, b: &mut dyn Block) -> Result<u8, Fail> {
     let r = std::panic::catch_unwind(std::panic::AssertUnwindSafe(|| match b.work() {
         Ok(BlockRet::Again) => 0u8,
-        Ok(BlockRet::WaitForStream(_, _)) => 1,
+        Ok(BlockRet::WaitForStream(w, n)) => {
+            // C09: a wait that the named stream already satisfies is untruthful (the scheduler would spin).  Timing probe (a
+            // genuine wait takes the stream's 100 ms timeout; a stream whose other end is gone answers at once and is not
+            // probed), twice per (target, amount); not for targets fed by another thread.
+            // (sources without an input -- sigmf, fsrc, misc -- use `wait for 1 free sample` as "call me again" while their
+            // file position or repetition count moves on: state changes the harness cannot see; they are not probed)
+            let due = !matches!(target, "tcp" | "sigmf" | "fsrc" | "misc") && {
+                let mut m = WAIT_SEEN.lock().unwrap();
+                let c = m.entry(format!("{target}/{n}")).or_insert(0);
+                *c += 1;
+                *c <= 2
+            };
+            if due && !w.closed() {
+                let t = std::time::Instant::now();
+                let _ = w.wait(n);
+                if t.elapsed() < std::time::Duration::from_millis(40) && !w.closed() { 5 } else { 1 }
+            } else {
+                1
+            }
+        }
         Ok(BlockRet::EOF) => 2,
         Ok(_) => 3,
         Err(_) => 4,
     }));
-    r.map_err(|_| fail(target, "C15", "work-does-not-panic", "work() panicked".into(), seed))
+    match r {
+        Err(_) => Err(fail(target, "C15", "work-does-not-panic", "work() panicked".into(), seed)),
+        Ok(5) => {
+            // an already satisfied wait is harmless if the following call gets somewhere (C09: "providing what it asked for
+            // on that stream alone lets a following call make progress"); asked again with nothing changed, the same
+            // already satisfied wait means the block spins
+            let again = std::panic::catch_unwind(std::panic::AssertUnwindSafe(|| match b.work() {
+                Ok(BlockRet::Again) => 0u8,
+                Ok(BlockRet::WaitForStream(w, n)) => {
+                    let t = std::time::Instant::now();
+                    let _ = w.wait(n);
+                    if t.elapsed() < std::time::Duration::from_millis(40) && !w.closed() { 5 } else { 1 }
+                }
+                Ok(BlockRet::EOF) => 2,
+                Ok(_) => 3,
+                Err(_) => 4,
+            }));
+            match again {
+                Err(_) => Err(fail(target, "C15", "work-does-not-panic", "work() panicked".into(), seed)),
+                Ok(5) => Err(fail(target, "C09", "wait-names-the-blocking-stream", "two calls in a row, nothing changed in between, both reported a wait that the stream they name already satisfies (the wait returns at once): the block spins".into(), seed)),
+                Ok(v) => Ok(v),
+            }
+        }
+        Ok(v) => Ok(v),
+    }
 }
 
 // ------------------------------------------------------------------------------------------------ rtlsdr
@@ -511,6 +556,51 @@ fn run_auenc(seed: u64) -> Result<u64, Fail> {
     Ok(works)
 }
 
+// AuEncode with the output stream left with exactly ONE free byte while input is waiting: a PCM16 sample needs two, so the
+// block must wait for two (defect F28 was a wait for one: satisfied at once, the block spins).
+fn run_auenc_one_byte_free(seed: u64) -> Result<u64, Fail> {
+    let t = "auenc";
+    let (w, r) = new_stream::<Float>();
+    let (mut b, o) = AuEncode::new(r, rustradio::au::Encoding::Pcm16, 8000, 1);
+    let chunk: Vec<Float> = (0..1_024_000).map(|i| ((i % 200) as Float - 100.0) / 100.0).collect();
+    let mut works = 0u64;
+    // fill the output completely (4 096 000 bytes: header + a little over two million samples)
+    for _ in 0..40 {
+        let mut pos = 0;
+        feed(&w, &chunk, &mut pos, usize::MAX, &no_tags);
+        let v = work(t, seed, &mut b)?;
+        works += 1;
+        let full = o.read_buf().unwrap().0.len() == 4_096_000;
+        if full { break; }
+        if v != 0 && pos == 0 { break; }
+    }
+    let (rb, _) = o.read_buf().unwrap();
+    if rb.len() != 4_096_000 {
+        return Ok(works); // could not fill the output in this configuration: nothing checked
+    }
+    rb.consume(1);
+    let mut pos = 0;
+    feed(&w, &chunk, &mut pos, 10, &no_tags);
+    let mut spins = 0;
+    for _ in 0..2 {
+        let before = o.read_buf().unwrap().0.len();
+        let quick = std::panic::catch_unwind(std::panic::AssertUnwindSafe(|| match b.work() {
+            Ok(BlockRet::WaitForStream(w, n)) => {
+                let t0 = std::time::Instant::now();
+                let _ = w.wait(n);
+                t0.elapsed() < std::time::Duration::from_millis(40) && !w.closed()
+            }
+            _ => false,
+        })).map_err(|_| fail(t, "C15", "work-does-not-panic", "work() panicked with one byte free in the output".into(), seed))?;
+        works += 1;
+        if quick && o.read_buf().unwrap().0.len() == before { spins += 1; }
+    }
+    if spins == 2 {
+        return Err(fail(t, "C09", "wait-names-the-blocking-stream", "one byte free in the output, input waiting: two calls in a row made no progress and reported a wait that is already satisfied (a sample needs two bytes): the block spins".into(), seed));
+    }
+    Ok(works)
+}
+
 // ------------------------------------------------------------------------------------------------ tcp
 fn run_tcp(seed: u64) -> Result<u64, Fail> {
     use std::io::Write;
@@ -757,7 +847,7 @@ fn run_sigmf(seed: u64) -> Result<u64, Fail> {
                 for _ in 0..20000 {
                     let v = match work(t, seed, &mut b) { Ok(v) => v, Err(mut f) => { f.what = format!("work() panicked: {desc}"); res = Err(f); break 'outer; } };
                     works += 1;
-                    if v == 4 { res = Err(fail(t, "C15", "error-only-for-bad-files", format!("{desc}: work() returned Err on a well-formed recording"), seed)); break 'outer; }
+                    if v == 4 { res = Err(fail(t, "C14+C15", "error-only-for-bad-files", format!("{desc}: work() returned Err on a well-formed recording"), seed)); break 'outer; }
                     // leave the output nearly full most of the time
                     let j = match style { 0 => usize::MAX, 1 => rng.pick(&[100, 5000, 1, 64]), _ => rng.pick(&[0, 0, 300_000]) };
                     drain(&o, j, &mut got);
@@ -1002,7 +1092,7 @@ fn bx_io() {
                 "rtlsdr" => run_rtlsdr(seed),
                 "fsink" => { if i > 0 { break; } run_fsink(seed) }
                 "s2pdu" => run_s2pdu(seed),
-                "auenc" => run_auenc(seed),
+                "auenc" => match if i == 0 { run_auenc_one_byte_free(seed) } else { Ok(0) } { Err(f) => Err(f), Ok(_) => run_auenc(seed) },
                 "tcp" => run_tcp(seed),
                 "fsrc" => { if i > 19 { break; } if i < 12 { run_fsrc(seed) } else { run_fsrc_fifo(seed) } }
                 "wpcr" => { if i > 0 { break; } run_wpcr(seed) }
